@@ -314,16 +314,471 @@ theorem csq_of_mem {T : ℝ} (h1 : ph.TMin ≤ T) (h2 : T ≤ ph.TMax) :
     ph.csq T = ph.dp T / ph.de T :=
   pw_of_mem h1 h2
 
-theorem csq_of_lt {T : ℝ} (h : T < ph.TMin) : ph.csq T = ph.csq ph.TMin := by
-  by_cases hle : ph.TMin ≤ ph.TMax
-  · rw [csq_of_mem le_rfl hle]; exact pw_of_lt h
-  · have h1 : ¬ ph.TMin < ph.TMin := lt_irrefl _
-    have h2 : ph.TMin > ph.TMax := not_le.mp hle
-    have h3 : ¬ ph.TMax < ph.TMin → False := fun h => h h2
-    simp only [csq, pw, h, h1, h2, if_true, if_false]
-    simp [dp, ddp, de, pw, h2]
-    sorry
+theorem csq_of_lt {T : ℝ} (h : T < ph.TMin) :
+    ph.csq T = ph.dp ph.TMin / ph.de ph.TMin :=
+  pw_of_lt h
+
+theorem csq_of_gt (hle : ph.TMin ≤ ph.TMax) {T : ℝ} (h : ph.TMax < T) :
+    ph.csq T = ph.dp ph.TMax / ph.de ph.TMax :=
+  pw_of_gt hle h
+
+/-! ### matching at the boundaries (T10.1, algebraic form) -/
+
+theorem matchMin_p (hE : ph.Extrap) : plP ph.aMin ph.muMin ph.epsMin ph.TMin = ph.p ph.TMin :=
+  pl_match_p hE.epsMin
+
+theorem matchMax_p (hE : ph.Extrap) : plP ph.aMax ph.muMax ph.epsMax ph.TMax = ph.p ph.TMax :=
+  pl_match_p hE.epsMax
+
+theorem muMin_eq (hE : ph.Extrap) (hle : ph.TMin ≤ ph.TMax) :
+    ph.muMin = 1 + 1 / (ph.dp ph.TMin / (ph.TMin * ph.ddp ph.TMin)) := by
+  rw [hE.muMin, csq_of_mem le_rfl hle]; rfl
+
+theorem muMax_eq (hE : ph.Extrap) (hle : ph.TMin ≤ ph.TMax) :
+    ph.muMax = 1 + 1 / (ph.dp ph.TMax / (ph.TMax * ph.ddp ph.TMax)) := by
+  rw [hE.muMax, csq_of_mem hle le_rfl]; rfl
+
+theorem muMin_ne_zero (hE : ph.Extrap) (hle : ph.TMin ≤ ph.TMax) (hdp : ph.dp ph.TMin ≠ 0)
+    (hdw : ph.dp ph.TMin + ph.de ph.TMin ≠ 0) : ph.muMin ≠ 0 :=
+  mu_ne_zero hdp hdw (muMin_eq hE hle)
+
+theorem muMax_ne_zero (hE : ph.Extrap) (hle : ph.TMin ≤ ph.TMax) (hdp : ph.dp ph.TMax ≠ 0)
+    (hdw : ph.dp ph.TMax + ph.de ph.TMax ≠ 0) : ph.muMax ≠ 0 :=
+  mu_ne_zero hdp hdw (muMax_eq hE hle)
+
+theorem matchMin_dp (hE : ph.Extrap) (hle : ph.TMin ≤ ph.TMax) (hT : 0 < ph.TMin)
+    (hdp : ph.dp ph.TMin ≠ 0) (hdw : ph.dp ph.TMin + ph.de ph.TMin ≠ 0) :
+    plDP ph.aMin ph.muMin ph.TMin = ph.dp ph.TMin :=
+  pl_match_dp hT (muMin_ne_zero hE hle hdp hdw) hE.aMin
+
+theorem matchMax_dp (hE : ph.Extrap) (hle : ph.TMin ≤ ph.TMax) (hT : 0 < ph.TMax)
+    (hdp : ph.dp ph.TMax ≠ 0) (hdw : ph.dp ph.TMax + ph.de ph.TMax ≠ 0) :
+    plDP ph.aMax ph.muMax ph.TMax = ph.dp ph.TMax :=
+  pl_match_dp hT (muMax_ne_zero hE hle hdp hdw) hE.aMax
+
+theorem matchMin_ddp (hE : ph.Extrap) (hle : ph.TMin ≤ ph.TMax) (hT : 0 < ph.TMin)
+    (hdp : ph.dp ph.TMin ≠ 0) (hdw : ph.dp ph.TMin + ph.de ph.TMin ≠ 0) :
+    plDDP ph.aMin ph.muMin ph.TMin = ph.ddp ph.TMin :=
+  pl_match_ddp hT hdp (muMin_ne_zero hE hle hdp hdw) (muMin_eq hE hle) hE.aMin
+
+theorem matchMax_ddp (hE : ph.Extrap) (hle : ph.TMin ≤ ph.TMax) (hT : 0 < ph.TMax)
+    (hdp : ph.dp ph.TMax ≠ 0) (hdw : ph.dp ph.TMax + ph.de ph.TMax ≠ 0) :
+    plDDP ph.aMax ph.muMax ph.TMax = ph.ddp ph.TMax :=
+  pl_match_ddp hT hdp (muMax_ne_zero hE hle hdp hdw) (muMax_eq hE hle) hE.aMax
+
+theorem WF.TMax_pos (hW : ph.WF) : 0 < ph.TMax := hW.TMin_pos.trans hW.TMin_lt_TMax
+
+/-! ### one-sided limits from the extrapolated side (T10.1) -/
+
+theorem p_tendsto_left_TMin (hE : ph.Extrap) (hle : ph.TMin ≤ ph.TMax) (hT : ph.TMin ≠ 0) :
+    Tendsto ph.p (𝓝[<] ph.TMin) (𝓝 (ph.p ph.TMin)) :=
+  pw_tendsto_left_TMin hle (continuousAt_plP hT) ((matchMin_p hE).trans (p_of_mem le_rfl hle))
+
+theorem p_tendsto_right_TMax (hE : ph.Extrap) (hle : ph.TMin ≤ ph.TMax) (hT : ph.TMax ≠ 0) :
+    Tendsto ph.p (𝓝[>] ph.TMax) (𝓝 (ph.p ph.TMax)) :=
+  pw_tendsto_right_TMax hle (continuousAt_plP hT) ((matchMax_p hE).trans (p_of_mem hle le_rfl))
+
+theorem dp_tendsto_left_TMin (hE : ph.Extrap) (hW : ph.WF) :
+    Tendsto ph.dp (𝓝[<] ph.TMin) (𝓝 (ph.dp ph.TMin)) :=
+  have hle := hW.TMin_lt_TMax.le
+  pw_tendsto_left_TMin hle (continuousAt_plDP hW.TMin_pos.ne')
+    ((matchMin_dp hE hle hW.TMin_pos hW.dpMin hW.dwMin).trans (dp_of_mem le_rfl hle))
+
+theorem dp_tendsto_right_TMax (hE : ph.Extrap) (hW : ph.WF) :
+    Tendsto ph.dp (𝓝[>] ph.TMax) (𝓝 (ph.dp ph.TMax)) :=
+  have hle := hW.TMin_lt_TMax.le
+  pw_tendsto_right_TMax hle (continuousAt_plDP hW.TMax_pos.ne')
+    ((matchMax_dp hE hle hW.TMax_pos hW.dpMax hW.dwMax).trans (dp_of_mem hle le_rfl))
+
+theorem ddp_tendsto_left_TMin (hE : ph.Extrap) (hW : ph.WF) :
+    Tendsto ph.ddp (𝓝[<] ph.TMin) (𝓝 (ph.ddp ph.TMin)) :=
+  have hle := hW.TMin_lt_TMax.le
+  pw_tendsto_left_TMin hle (continuousAt_plDDP hW.TMin_pos.ne')
+    ((matchMin_ddp hE hle hW.TMin_pos hW.dpMin hW.dwMin).trans (ddp_of_mem le_rfl hle))
+
+theorem ddp_tendsto_right_TMax (hE : ph.Extrap) (hW : ph.WF) :
+    Tendsto ph.ddp (𝓝[>] ph.TMax) (𝓝 (ph.ddp ph.TMax)) :=
+  have hle := hW.TMin_lt_TMax.le
+  pw_tendsto_right_TMax hle (continuousAt_plDDP hW.TMax_pos.ne')
+    ((matchMax_ddp hE hle hW.TMax_pos hW.dpMax hW.dwMax).trans (ddp_of_mem hle le_rfl))
+
+theorem csq_tendsto_left_TMin (hle : ph.TMin ≤ ph.TMax) :
+    Tendsto ph.csq (𝓝[<] ph.TMin) (𝓝 (ph.csq ph.TMin)) :=
+  pw_tendsto_left_TMin hle continuousAt_const rfl
+
+theorem csq_tendsto_right_TMax (hle : ph.TMin ≤ ph.TMax) :
+    Tendsto ph.csq (𝓝[>] ph.TMax) (𝓝 (ph.csq ph.TMax)) :=
+  pw_tendsto_right_TMax hle continuousAt_const rfl
+
+/-! ### two-sided continuity at the boundaries (T10.1) -/
+
+theorem p_continuousAt_TMin (hE : ph.Extrap) (hlt : ph.TMin < ph.TMax) (hT : ph.TMin ≠ 0)
+    (hF : ContinuousWithinAt ph.F (Ici ph.TMin) ph.TMin) : ContinuousAt ph.p ph.TMin :=
+  pw_continuousAt_TMin hlt (continuousAt_plP hT)
+    ((matchMin_p hE).trans (p_of_mem le_rfl hlt.le)) hF.neg
+
+theorem p_continuousAt_TMax (hE : ph.Extrap) (hlt : ph.TMin < ph.TMax) (hT : ph.TMax ≠ 0)
+    (hF : ContinuousWithinAt ph.F (Iic ph.TMax) ph.TMax) : ContinuousAt ph.p ph.TMax :=
+  pw_continuousAt_TMax hlt (continuousAt_plP hT)
+    ((matchMax_p hE).trans (p_of_mem hlt.le le_rfl)) hF.neg
+
+theorem dp_continuousAt_TMin (hE : ph.Extrap) (hW : ph.WF)
+    (hF : ContinuousWithinAt ph.dF (Ici ph.TMin) ph.TMin) : ContinuousAt ph.dp ph.TMin :=
+  have hle := hW.TMin_lt_TMax.le
+  pw_continuousAt_TMin hW.TMin_lt_TMax (continuousAt_plDP hW.TMin_pos.ne')
+    ((matchMin_dp hE hle hW.TMin_pos hW.dpMin hW.dwMin).trans (dp_of_mem le_rfl hle)) hF.neg
+
+theorem dp_continuousAt_TMax (hE : ph.Extrap) (hW : ph.WF)
+    (hF : ContinuousWithinAt ph.dF (Iic ph.TMax) ph.TMax) : ContinuousAt ph.dp ph.TMax :=
+  have hle := hW.TMin_lt_TMax.le
+  pw_continuousAt_TMax hW.TMin_lt_TMax (continuousAt_plDP hW.TMax_pos.ne')
+    ((matchMax_dp hE hle hW.TMax_pos hW.dpMax hW.dwMax).trans (dp_of_mem hle le_rfl)) hF.neg
+
+theorem ddp_continuousAt_TMin (hE : ph.Extrap) (hW : ph.WF)
+    (hF : ContinuousWithinAt ph.ddF (Ici ph.TMin) ph.TMin) : ContinuousAt ph.ddp ph.TMin :=
+  have hle := hW.TMin_lt_TMax.le
+  pw_continuousAt_TMin hW.TMin_lt_TMax (continuousAt_plDDP hW.TMin_pos.ne')
+    ((matchMin_ddp hE hle hW.TMin_pos hW.dpMin hW.dwMin).trans (ddp_of_mem le_rfl hle)) hF.neg
+
+theorem ddp_continuousAt_TMax (hE : ph.Extrap) (hW : ph.WF)
+    (hF : ContinuousWithinAt ph.ddF (Iic ph.TMax) ph.TMax) : ContinuousAt ph.ddp ph.TMax :=
+  have hle := hW.TMin_lt_TMax.le
+  pw_continuousAt_TMax hW.TMin_lt_TMax (continuousAt_plDDP hW.TMax_pos.ne')
+    ((matchMax_ddp hE hle hW.TMax_pos hW.dpMax hW.dwMax).trans (ddp_of_mem hle le_rfl)) hF.neg
+
+/-- `csq` is continuous at `TMin`: constant on the left; on the right it is `dp/de` with
+`dp = -dF`, `de = -T·ddF` right-continuous and `de(TMin) ≠ 0`. No `Extrap` needed. -/
+theorem csq_continuousAt_TMin (hlt : ph.TMin < ph.TMax) (hde : ph.de ph.TMin ≠ 0)
+    (hdF : ContinuousWithinAt ph.dF (Ici ph.TMin) ph.TMin)
+    (hddF : ContinuousWithinAt ph.ddF (Ici ph.TMin) ph.TMin) : ContinuousAt ph.csq ph.TMin := by
+  refine pw_continuousAt_TMin hlt continuousAt_const rfl ?_
+  have h1 : ContinuousWithinAt ph.dp (Ici ph.TMin) ph.TMin :=
+    pw_continuousWithinAt_Ici_TMin hlt hdF.neg
+  have h2 : ContinuousWithinAt ph.ddp (Ici ph.TMin) ph.TMin :=
+    pw_continuousWithinAt_Ici_TMin hlt hddF.neg
+  exact h1.div (continuousWithinAt_id.mul h2) hde
+
+theorem csq_continuousAt_TMax (hlt : ph.TMin < ph.TMax) (hde : ph.de ph.TMax ≠ 0)
+    (hdF : ContinuousWithinAt ph.dF (Iic ph.TMax) ph.TMax)
+    (hddF : ContinuousWithinAt ph.ddF (Iic ph.TMax) ph.TMax) : ContinuousAt ph.csq ph.TMax := by
+  refine pw_continuousAt_TMax hlt continuousAt_const rfl ?_
+  have h1 : ContinuousWithinAt ph.dp (Iic ph.TMax) ph.TMax :=
+    pw_continuousWithinAt_Iic_TMax hlt hdF.neg
+  have h2 : ContinuousWithinAt ph.ddp (Iic ph.TMax) ph.TMax :=
+    pw_continuousWithinAt_Iic_TMax hlt hddF.neg
+  exact h1.div (continuousWithinAt_id.mul h2) hde
+
+/-! ### derivatives (T10.2) -/
+
+theorem hasDerivAt_p_of_lt {T : ℝ} (hT0 : T ≠ 0) (hT : T < ph.TMin) :
+    HasDerivAt ph.p (ph.dp T) T := by
+  rw [dp, pw_of_lt hT]; exact pw_hasDerivAt_of_lt hT (hasDerivAt_plP hT0)
+
+theorem hasDerivAt_dp_of_lt {T : ℝ} (hT0 : T ≠ 0) (hT : T < ph.TMin) :
+    HasDerivAt ph.dp (ph.ddp T) T := by
+  rw [ddp, pw_of_lt hT]; exact pw_hasDerivAt_of_lt hT (hasDerivAt_plDP hT0)
+
+theorem hasDerivAt_p_of_gt (hle : ph.TMin ≤ ph.TMax) {T : ℝ} (hT0 : T ≠ 0) (hT : ph.TMax < T) :
+    HasDerivAt ph.p (ph.dp T) T := by
+  rw [dp, pw_of_gt hle hT]; exact pw_hasDerivAt_of_gt hle hT (hasDerivAt_plP hT0)
+
+theorem hasDerivAt_dp_of_gt (hle : ph.TMin ≤ ph.TMax) {T : ℝ} (hT0 : T ≠ 0) (hT : ph.TMax < T) :
+    HasDerivAt ph.dp (ph.ddp T) T := by
+  rw [ddp, pw_of_gt hle hT]; exact pw_hasDerivAt_of_gt hle hT (hasDerivAt_plDP hT0)
+
+theorem hasDerivAt_p_of_mem {T : ℝ} (h1 : ph.TMin < T) (h2 : T < ph.TMax)
+    (hF : HasDerivAt ph.F (ph.dF T) T) : HasDerivAt ph.p (ph.dp T) T := by
+  rw [dp_of_mem h1.le h2.le]; exact pw_hasDerivAt_of_mem h1 h2 hF.fun_neg
+
+theorem hasDerivAt_dp_of_mem {T : ℝ} (h1 : ph.TMin < T) (h2 : T < ph.TMax)
+    (hF : HasDerivAt ph.dF (ph.ddF T) T) : HasDerivAt ph.dp (ph.ddp T) T := by
+  rw [ddp_of_mem h1.le h2.le]; exact pw_hasDerivAt_of_mem h1 h2 hF.fun_neg
+
+theorem hasDerivAt_p_TMin (hE : ph.Extrap) (hW : ph.WF)
+    (hF : HasDerivWithinAt ph.F (ph.dF ph.TMin) (Ici ph.TMin) ph.TMin) :
+    HasDerivAt ph.p (ph.dp ph.TMin) ph.TMin := by
+  have hle := hW.TMin_lt_TMax.le
+  refine pw_hasDerivAt_TMin hW.TMin_lt_TMax ?_
+    ((matchMin_p hE).trans (p_of_mem le_rfl hle)) ?_
+  · rw [← matchMin_dp hE hle hW.TMin_pos hW.dpMin hW.dwMin]
+    exact hasDerivAt_plP hW.TMin_pos.ne'
+  · rw [dp_of_mem le_rfl hle]; exact hF.fun_neg
+
+theorem hasDerivAt_p_TMax (hE : ph.Extrap) (hW : ph.WF)
+    (hF : HasDerivWithinAt ph.F (ph.dF ph.TMax) (Iic ph.TMax) ph.TMax) :
+    HasDerivAt ph.p (ph.dp ph.TMax) ph.TMax := by
+  have hle := hW.TMin_lt_TMax.le
+  refine pw_hasDerivAt_TMax hW.TMin_lt_TMax ?_
+    ((matchMax_p hE).trans (p_of_mem hle le_rfl)) ?_
+  · rw [← matchMax_dp hE hle hW.TMax_pos hW.dpMax hW.dwMax]
+    exact hasDerivAt_plP hW.TMax_pos.ne'
+  · rw [dp_of_mem hle le_rfl]; exact hF.fun_neg
+
+theorem hasDerivAt_dp_TMin (hE : ph.Extrap) (hW : ph.WF)
+    (hF : HasDerivWithinAt ph.dF (ph.ddF ph.TMin) (Ici ph.TMin) ph.TMin) :
+    HasDerivAt ph.dp (ph.ddp ph.TMin) ph.TMin := by
+  have hle := hW.TMin_lt_TMax.le
+  refine pw_hasDerivAt_TMin hW.TMin_lt_TMax ?_
+    ((matchMin_dp hE hle hW.TMin_pos hW.dpMin hW.dwMin).trans (dp_of_mem le_rfl hle)) ?_
+  · rw [← matchMin_ddp hE hle hW.TMin_pos hW.dpMin hW.dwMin]
+    exact hasDerivAt_plDP hW.TMin_pos.ne'
+  · rw [ddp_of_mem le_rfl hle]; exact hF.fun_neg
+
+theorem hasDerivAt_dp_TMax (hE : ph.Extrap) (hW : ph.WF)
+    (hF : HasDerivWithinAt ph.dF (ph.ddF ph.TMax) (Iic ph.TMax) ph.TMax) :
+    HasDerivAt ph.dp (ph.ddp ph.TMax) ph.TMax := by
+  have hle := hW.TMin_lt_TMax.le
+  refine pw_hasDerivAt_TMax hW.TMin_lt_TMax ?_
+    ((matchMax_dp hE hle hW.TMax_pos hW.dpMax hW.dwMax).trans (dp_of_mem hle le_rfl)) ?_
+  · rw [← matchMax_ddp hE hle hW.TMax_pos hW.dpMax hW.dwMax]
+    exact hasDerivAt_plDP hW.TMax_pos.ne'
+  · rw [ddp_of_mem hle le_rfl]; exact hF.fun_neg
+
+/-- `dp` is the derivative of `p` at EVERY `T > 0`, given the spline contract on the closed range. -/
+theorem hasDerivAt_p (hE : ph.Extrap) (hW : ph.WF)
+    (hF : ∀ T, ph.TMin ≤ T → T ≤ ph.TMax → HasDerivAt ph.F (ph.dF T) T) {T : ℝ} (hT : 0 < T) :
+    HasDerivAt ph.p (ph.dp T) T := by
+  have hlt := hW.TMin_lt_TMax
+  rcases lt_trichotomy T ph.TMin with h | rfl | h
+  · exact hasDerivAt_p_of_lt hT.ne' h
+  · exact hasDerivAt_p_TMin hE hW (hF _ le_rfl hlt.le).hasDerivWithinAt
+  rcases lt_trichotomy T ph.TMax with h' | rfl | h'
+  · exact hasDerivAt_p_of_mem h h' (hF _ h.le h'.le)
+  · exact hasDerivAt_p_TMax hE hW (hF _ hlt.le le_rfl).hasDerivWithinAt
+  · exact hasDerivAt_p_of_gt hlt.le hT.ne' h'
+
+/-- `ddp` is the derivative of `dp` at EVERY `T > 0`, given the spline contract on the closed range. -/
+theorem hasDerivAt_dp (hE : ph.Extrap) (hW : ph.WF)
+    (hF : ∀ T, ph.TMin ≤ T → T ≤ ph.TMax → HasDerivAt ph.dF (ph.ddF T) T) {T : ℝ} (hT : 0 < T) :
+    HasDerivAt ph.dp (ph.ddp T) T := by
+  have hlt := hW.TMin_lt_TMax
+  rcases lt_trichotomy T ph.TMin with h | rfl | h
+  · exact hasDerivAt_dp_of_lt hT.ne' h
+  · exact hasDerivAt_dp_TMin hE hW (hF _ le_rfl hlt.le).hasDerivWithinAt
+  rcases lt_trichotomy T ph.TMax with h' | rfl | h'
+  · exact hasDerivAt_dp_of_mem h h' (hF _ h.le h'.le)
+  · exact hasDerivAt_dp_TMax hE hW (hF _ hlt.le le_rfl).hasDerivWithinAt
+  · exact hasDerivAt_dp_of_gt hlt.le hT.ne' h'
+
+/-! ### `csq = dp/de` in the extrapolated regions -/
+
+theorem aMin_ne_zero (hE : ph.Extrap) (hle : ph.TMin ≤ ph.TMax) (hT : 0 < ph.TMin)
+    (hdp : ph.dp ph.TMin ≠ 0) (hdw : ph.dp ph.TMin + ph.de ph.TMin ≠ 0) : ph.aMin ≠ 0 :=
+  a_ne_zero hT hdp (muMin_ne_zero hE hle hdp hdw) hE.aMin
+
+theorem aMax_ne_zero (hE : ph.Extrap) (hle : ph.TMin ≤ ph.TMax) (hT : 0 < ph.TMax)
+    (hdp : ph.dp ph.TMax ≠ 0) (hdw : ph.dp ph.TMax + ph.de ph.TMax ≠ 0) : ph.aMax ≠ 0 :=
+  a_ne_zero hT hdp (muMax_ne_zero hE hle hdp hdw) hE.aMax
+
+theorem csq_eq_of_lt (hE : ph.Extrap) (hle : ph.TMin ≤ ph.TMax) (hTm : 0 < ph.TMin)
+    (hdp : ph.dp ph.TMin ≠ 0) (hdw : ph.dp ph.TMin + ph.de ph.TMin ≠ 0)
+    {T : ℝ} (hT0 : 0 < T) (hT : T < ph.TMin) : ph.csq T = ph.dp T / ph.de T := by
+  have e1 : ph.dp T = plDP ph.aMin ph.muMin T := pw_of_lt hT
+  have e2 : ph.de T = T * plDDP ph.aMin ph.muMin T := by unfold de ddp; rw [pw_of_lt hT]
+  rw [csq_of_lt hT, e1, e2,
+    pl_ratio hT0 (muMin_ne_zero hE hle hdp hdw) (aMin_ne_zero hE hle hTm hdp hdw),
+    mu_sub_one (muMin_eq hE hle), one_div_div]
+  rfl
+
+theorem csq_eq_of_gt (hE : ph.Extrap) (hle : ph.TMin ≤ ph.TMax) (hTm : 0 < ph.TMax)
+    (hdp : ph.dp ph.TMax ≠ 0) (hdw : ph.dp ph.TMax + ph.de ph.TMax ≠ 0)
+    {T : ℝ} (hT : ph.TMax < T) : ph.csq T = ph.dp T / ph.de T := by
+  have hT0 : 0 < T := hTm.trans hT
+  have e1 : ph.dp T = plDP ph.aMax ph.muMax T := pw_of_gt hle hT
+  have e2 : ph.de T = T * plDDP ph.aMax ph.muMax T := by unfold de ddp; rw [pw_of_gt hle hT]
+  rw [csq_of_gt hle hT, e1, e2,
+    pl_ratio hT0 (muMax_ne_zero hE hle hdp hdw) (aMax_ne_zero hE hle hTm hdp hdw),
+    mu_sub_one (muMax_eq hE hle), one_div_div]
+  rfl
+
+/-- `csq = dp/de` at every `T > 0`. -/
+theorem csq_eq (hE : ph.Extrap) (hW : ph.WF) {T : ℝ} (hT : 0 < T) :
+    ph.csq T = ph.dp T / ph.de T := by
+  have hle := hW.TMin_lt_TMax.le
+  rcases lt_or_ge T ph.TMin with h | h
+  · exact csq_eq_of_lt hE hle hW.TMin_pos hW.dpMin hW.dwMin hT h
+  rcases le_or_gt T ph.TMax with h' | h'
+  · exact csq_of_mem h h'
+  · exact csq_eq_of_gt hE hle hW.TMax_pos hW.dpMax hW.dwMax h'
+
+/-- in the low extrapolated region the quotient `dp/de` is genuine: `de T ≠ 0`. -/
+theorem de_ne_zero_of_lt (hE : ph.Extrap) (hW : ph.WF) {T : ℝ} (hT0 : 0 < T) (hT : T < ph.TMin) :
+    ph.de T ≠ 0 := by
+  have hle := hW.TMin_lt_TMax.le
+  have e2 : ph.de T = T * plDDP ph.aMin ph.muMin T := by unfold de ddp; rw [pw_of_lt hT]
+  rw [e2]
+  refine pl_de_ne_zero hT0 (muMin_ne_zero hE hle hW.dpMin hW.dwMin) ?_
+    (aMin_ne_zero hE hle hW.TMin_pos hW.dpMin hW.dwMin)
+  rw [mu_sub_one (muMin_eq hE hle)]
+  exact div_ne_zero hW.deMin hW.dpMin
+
+theorem de_ne_zero_of_gt (hE : ph.Extrap) (hW : ph.WF) {T : ℝ} (hT : ph.TMax < T) :
+    ph.de T ≠ 0 := by
+  have hle := hW.TMin_lt_TMax.le
+  have e2 : ph.de T = T * plDDP ph.aMax ph.muMax T := by unfold de ddp; rw [pw_of_gt hle hT]
+  rw [e2]
+  refine pl_de_ne_zero (hW.TMax_pos.trans hT) (muMax_ne_zero hE hle hW.dpMax hW.dwMax) ?_
+    (aMax_ne_zero hE hle hW.TMax_pos hW.dpMax hW.dwMax)
+  rw [mu_sub_one (muMax_eq hE hle)]
+  exact div_ne_zero hW.deMax hW.dpMax
+
+/-- the sound speed used in the extrapolated regions is `1/(mu−1)`. -/
+theorem csq_TMin_eq (hE : ph.Extrap) (hle : ph.TMin ≤ ph.TMax) :
+    ph.csq ph.TMin = 1 / (ph.muMin - 1) := by
+  rw [mu_sub_one (muMin_eq hE hle), one_div_div, csq_of_mem le_rfl hle]; rfl
+
+theorem csq_TMax_eq (hE : ph.Extrap) (hle : ph.TMin ≤ ph.TMax) :
+    ph.csq ph.TMax = 1 / (ph.muMax - 1) := by
+  rw [mu_sub_one (muMax_eq hE hle), one_div_div, csq_of_mem hle le_rfl]; rfl
 
 end Phase
+
+/-! ## The generated `ThermoP` as two phases -/
+
+open Gen.R.Thermo
+
+/-- the high-temperature phase of `s`. -/
+def highPhase (s : ThermoP) : Phase :=
+  { TMin := s.TMinHighT, muMin := s.muMinHighT, aMin := s.aMinHighT, epsMin := s.epsilonMinHighT,
+    TMax := s.TMaxHighT, muMax := s.muMaxHighT, aMax := s.aMaxHighT, epsMax := s.epsilonMaxHighT,
+    F := s.FHigh, dF := s.dFHigh, ddF := s.ddFHigh }
+
+/-- the low-temperature phase of `s`. -/
+def lowPhase (s : ThermoP) : Phase :=
+  { TMin := s.TMinLowT, muMin := s.muMinLowT, aMin := s.aMinLowT, epsMin := s.epsilonMinLowT,
+    TMax := s.TMaxLowT, muMax := s.muMaxLowT, aMax := s.aMaxLowT, epsMax := s.epsilonMaxLowT,
+    F := s.FLow, dF := s.dFLow, ddF := s.ddFLow }
+
+section bridge
+variable (s : ThermoP)
+
+/-! The generated functions are *definitionally* the one-phase functions. -/
+theorem pHighT_eq : pHighT s = (highPhase s).p := rfl
+theorem dpHighT_eq : dpHighT s = (highPhase s).dp := rfl
+theorem ddpHighT_eq : ddpHighT s = (highPhase s).ddp := rfl
+theorem eHighT_eq : eHighT s = (highPhase s).e := rfl
+theorem deHighT_eq : deHighT s = (highPhase s).de := rfl
+theorem wHighT_eq : wHighT s = (highPhase s).w := rfl
+theorem csqHighT_eq : csqHighT s = (highPhase s).csq := rfl
+theorem pLowT_eq : pLowT s = (lowPhase s).p := rfl
+theorem dpLowT_eq : dpLowT s = (lowPhase s).dp := rfl
+theorem ddpLowT_eq : ddpLowT s = (lowPhase s).ddp := rfl
+theorem eLowT_eq : eLowT s = (lowPhase s).e := rfl
+theorem deLowT_eq : deLowT s = (lowPhase s).de := rfl
+theorem wLowT_eq : wLowT s = (lowPhase s).w := rfl
+theorem csqLowT_eq : csqLowT s = (lowPhase s).csq := rfl
+
+end bridge
+
+/-- "`s` is the state left by `setExtrapolate`": each of the 12 template-model fields equals the value
+that `setExtrapolate` assigns to it (the `*_set` definitions of the generated file, which read the
+fields assigned earlier from `s` itself). -/
+def Extrapolated (s : ThermoP) : Prop :=
+  s.muMinHighT = muMinHighT_set s ∧ s.aMinHighT = aMinHighT_set s ∧
+  s.epsilonMinHighT = epsilonMinHighT_set s ∧
+  s.muMaxHighT = muMaxHighT_set s ∧ s.aMaxHighT = aMaxHighT_set s ∧
+  s.epsilonMaxHighT = epsilonMaxHighT_set s ∧
+  s.muMinLowT = muMinLowT_set s ∧ s.aMinLowT = aMinLowT_set s ∧
+  s.epsilonMinLowT = epsilonMinLowT_set s ∧
+  s.muMaxLowT = muMaxLowT_set s ∧ s.aMaxLowT = aMaxLowT_set s ∧
+  s.epsilonMaxLowT = epsilonMaxLowT_set s
+
+theorem Extrapolated.high {s : ThermoP} (h : Extrapolated s) : (highPhase s).Extrap :=
+  ⟨h.1, h.2.1, h.2.2.1, h.2.2.2.1, h.2.2.2.2.1, h.2.2.2.2.2.1⟩
+
+theorem Extrapolated.low {s : ThermoP} (h : Extrapolated s) : (lowPhase s).Extrap :=
+  ⟨h.2.2.2.2.2.2.1, h.2.2.2.2.2.2.2.1, h.2.2.2.2.2.2.2.2.1, h.2.2.2.2.2.2.2.2.2.1,
+    h.2.2.2.2.2.2.2.2.2.2.1, h.2.2.2.2.2.2.2.2.2.2.2⟩
+
+/-- Well-formedness side conditions (all are conditions on the spline data at the four boundary
+temperatures, because there `dp = -dF`, `de = -T·ddF`):
+* the tabulated range is a non-degenerate interval of positive temperatures;
+* `dp ≠ 0` at each boundary  (enthalpy `w = T·dp ≠ 0`; also `csq ≠ 0`, so `1/csq` is genuine);
+* `de ≠ 0` at each boundary  (`csq = dp/de` is a genuine quotient);
+* `dp + de ≠ 0` at each boundary (this is `mu = 1 + 1/csq ≠ 0`, needed because `a = 3w/(mu·T^mu)`).
+Physically `dp > 0` and `de > 0` (positive enthalpy and sound speed) imply all three, see `WF.of_pos`. -/
+structure WF (s : ThermoP) : Prop where
+  TMinHighT_pos : 0 < s.TMinHighT
+  rangeHighT : s.TMinHighT < s.TMaxHighT
+  dpMinHighT : dpHighT s s.TMinHighT ≠ 0
+  deMinHighT : deHighT s s.TMinHighT ≠ 0
+  dwMinHighT : dpHighT s s.TMinHighT + deHighT s s.TMinHighT ≠ 0
+  dpMaxHighT : dpHighT s s.TMaxHighT ≠ 0
+  deMaxHighT : deHighT s s.TMaxHighT ≠ 0
+  dwMaxHighT : dpHighT s s.TMaxHighT + deHighT s s.TMaxHighT ≠ 0
+  TMinLowT_pos : 0 < s.TMinLowT
+  rangeLowT : s.TMinLowT < s.TMaxLowT
+  dpMinLowT : dpLowT s s.TMinLowT ≠ 0
+  deMinLowT : deLowT s s.TMinLowT ≠ 0
+  dwMinLowT : dpLowT s s.TMinLowT + deLowT s s.TMinLowT ≠ 0
+  dpMaxLowT : dpLowT s s.TMaxLowT ≠ 0
+  deMaxLowT : deLowT s s.TMaxLowT ≠ 0
+  dwMaxLowT : dpLowT s s.TMaxLowT + deLowT s s.TMaxLowT ≠ 0
+
+theorem WF.high {s : ThermoP} (h : WF s) : (highPhase s).WF :=
+  ⟨h.TMinHighT_pos, h.rangeHighT, h.dpMinHighT, h.deMinHighT, h.dwMinHighT,
+    h.dpMaxHighT, h.deMaxHighT, h.dwMaxHighT⟩
+
+theorem WF.low {s : ThermoP} (h : WF s) : (lowPhase s).WF :=
+  ⟨h.TMinLowT_pos, h.rangeLowT, h.dpMinLowT, h.deMinLowT, h.dwMinLowT,
+    h.dpMaxLowT, h.deMaxLowT, h.dwMaxLowT⟩
+
+/-- the physical conditions (positive temperatures, `dp > 0` i.e. positive enthalpy, `de > 0` i.e.
+positive sound speed, at the four boundaries) imply `WF`. -/
+theorem WF.of_pos {s : ThermoP}
+    (h1 : 0 < s.TMinHighT) (h2 : s.TMinHighT < s.TMaxHighT)
+    (h3 : 0 < dpHighT s s.TMinHighT) (h4 : 0 < deHighT s s.TMinHighT)
+    (h5 : 0 < dpHighT s s.TMaxHighT) (h6 : 0 < deHighT s s.TMaxHighT)
+    (l1 : 0 < s.TMinLowT) (l2 : s.TMinLowT < s.TMaxLowT)
+    (l3 : 0 < dpLowT s s.TMinLowT) (l4 : 0 < deLowT s s.TMinLowT)
+    (l5 : 0 < dpLowT s s.TMaxLowT) (l6 : 0 < deLowT s s.TMaxLowT) : WF s :=
+  ⟨h1, h2, h3.ne', h4.ne', (add_pos h3 h4).ne', h5.ne', h6.ne', (add_pos h5 h6).ne',
+    l1, l2, l3.ne', l4.ne', (add_pos l3 l4).ne', l5.ne', l6.ne', (add_pos l5 l6).ne'⟩
+
+/-! ## A concrete instance (non-vacuity)
+
+Bag-like equations of state on the tabulated range `[1,2]`:
+high-T phase `F = -T⁴`  (so `p = T⁴`, `csq = 1/3`, `mu = 4`, `a = 3`, `eps = 0`);
+low-T phase `F = -T⁴/2 - 1` (so `p = T⁴/2 + 1`, `csq = 1/3`, `mu = 4`, `a = 3/2`, `eps = -1`). -/
+
+noncomputable def exS : ThermoP :=
+  { TMinHighT := 1, muMinHighT := 4, aMinHighT := 3, epsilonMinHighT := 0,
+    TMaxHighT := 2, muMaxHighT := 4, aMaxHighT := 3, epsilonMaxHighT := 0,
+    TMinLowT := 1, muMinLowT := 4, aMinLowT := 3 / 2, epsilonMinLowT := -1,
+    TMaxLowT := 2, muMaxLowT := 4, aMaxLowT := 3 / 2, epsilonMaxLowT := -1,
+    FHigh := fun T => -T ^ 4, dFHigh := fun T => -(4 * T ^ 3), ddFHigh := fun T => -(12 * T ^ 2),
+    FLow := fun T => -T ^ 4 / 2 - 1, dFLow := fun T => -(2 * T ^ 3),
+    ddFLow := fun T => -(6 * T ^ 2) }
+
+theorem two_rpow_four : (2 : ℝ) ^ (4 : ℝ) = 16 := by
+  rw [show (4 : ℝ) = ((4 : ℕ) : ℝ) by norm_num, Real.rpow_natCast]; norm_num
+
+theorem exS_Extrapolated : Extrapolated exS := by
+  have h2 := two_rpow_four
+  refine ⟨?_, ?_, ?_, ?_, ?_, ?_, ?_, ?_, ?_, ?_, ?_, ?_⟩ <;>
+  norm_num [exS, muMinHighT_set, aMinHighT_set, epsilonMinHighT_set, muMaxHighT_set, aMaxHighT_set,
+    epsilonMaxHighT_set, muMinLowT_set, aMinLowT_set, epsilonMinLowT_set, muMaxLowT_set,
+    aMaxLowT_set, epsilonMaxLowT_set, csqHighT, csqLowT, wHighT, wLowT, pHighT, pLowT, dpHighT,
+    dpLowT, deHighT, deLowT, ddpHighT, ddpLowT, WG.R.rpow, h2]
+
+theorem exS_WF : WF exS := by
+  constructor <;>
+  norm_num [exS, dpHighT, dpLowT, deHighT, deLowT, ddpHighT, ddpLowT]
+
+theorem exS_contract_FHigh (T : ℝ) : HasDerivAt exS.FHigh (exS.dFHigh T) T := by
+  show HasDerivAt (fun T : ℝ => -T ^ 4) (-(4 * T ^ 3)) T
+  exact ((hasDerivAt_pow 4 T).fun_neg).congr_deriv (by norm_num)
+
+theorem exS_contract_dFHigh (T : ℝ) : HasDerivAt exS.dFHigh (exS.ddFHigh T) T := by
+  show HasDerivAt (fun T : ℝ => -(4 * T ^ 3)) (-(12 * T ^ 2)) T
+  exact (((hasDerivAt_pow 3 T).const_mul 4).fun_neg).congr_deriv (by norm_num; ring)
+
+theorem exS_contract_FLow (T : ℝ) : HasDerivAt exS.FLow (exS.dFLow T) T := by
+  show HasDerivAt (fun T : ℝ => -T ^ 4 / 2 - 1) (-(2 * T ^ 3)) T
+  exact ((((hasDerivAt_pow 4 T).fun_neg).div_const 2).sub_const 1).congr_deriv (by norm_num; ring)
+
+theorem exS_contract_dFLow (T : ℝ) : HasDerivAt exS.dFLow (exS.ddFLow T) T := by
+  show HasDerivAt (fun T : ℝ => -(2 * T ^ 3)) (-(6 * T ^ 2)) T
+  exact (((hasDerivAt_pow 3 T).const_mul 2).fun_neg).congr_deriv (by norm_num; ring)
 
 end Lemmas.Thermo
